@@ -321,7 +321,8 @@ PROPS = {
         "r": [("kzg", lambda n: "from_raw_var_bytes" in n), ("verifier", lambda n: n == "verifier.new"), ("compress", None),
               ("serial", lambda n: "try_from_bytes" in n or "from_slice" in n or "from_bytes" in n),
               ("serial_kzg", lambda n: "from_" in n or "try_new" in n)],
-        "claim": "totality of the length-field / section parsing for ALL byte strings of ANY length (no bound): Verifier::try_from_bytes and "
+        "claim": "(0) CommitKey::from_raw_var_bytes: only the canonical raw encoding of a point (flag byte 0/1, limbs below the base-field modulus; Kani twin of the guard in the thorough tier) reaches the unchecked dependency decoder, every decoded point is validated individually. "
+                 "totality of the length-field / section parsing for ALL byte strings of ANY length (no bound): Verifier::try_from_bytes and "
                  "Prover::try_from_bytes never index out of bounds and never overflow (48-byte header, checked sums, required_len guard before "
                  "every slice); PackedCircuitReader::{take, unpack_array_len} and packed_size_limit likewise; "
                  "CommitKey::from_raw_var_bytes accepts a key only if EVERY decoded point individually passed is_on_curve & is_torsion_free "
